@@ -238,6 +238,12 @@ func (u *Unit) tryConst(term, reach string) (string, bool) {
 			b.WriteString(l + "\n")
 		}
 		for _, l := range u.lines {
+			// quantified facts are left out: without them the first query is decidable
+			// (a model is needed), and a constant value proved from fewer assumptions is
+			// still the value under all of them
+			if strings.HasPrefix(l, "(assert") && (strings.Contains(l, "(forall ") || strings.Contains(l, "(exists ")) {
+				continue
+			}
 			b.WriteString(l + "\n")
 		}
 		b.WriteString("(assert " + reach + ")\n")
@@ -251,7 +257,7 @@ func (u *Unit) tryConst(term, reach string) (string, bool) {
 		defer os.Remove(f.Name())
 		f.WriteString(q)
 		f.Close()
-		out, _ := exec.Command("z3-new", "-T:3", f.Name()).CombinedOutput()
+		out, _ := exec.Command("z3-new", "-T:10", f.Name()).CombinedOutput()
 		return string(out)
 	}
 	out := run(base + "(check-sat)\n(get-value (" + term + "))\n")
